@@ -122,6 +122,11 @@ func (t *T) Outcome(s string) { t.outcome = s; t.hasOutcome = true }
 
 func (t *T) Tier() string { return t.r.Tier }
 
+// AddTransitions / AddStates let a case report state-space numbers (only executed cases count).
+func (t *T) AddTransitions(n int64) { t.r.res.Transitions += n }
+func (t *T) AddStates(n int64)      { t.r.res.States += n }
+func (t *T) AddExtra(k string, n int64) { t.r.res.Extra[k] += n }
+
 // GroupStat is the per-group coverage.
 type GroupStat struct {
 	Evaluations int64    `json:"evaluations"`
